@@ -1,10 +1,8 @@
 package props
 
 import (
-	"bufio"
 	"bytes"
 	"fmt"
-	"io"
 
 	"verif/core"
 	"verif/ref"
@@ -17,44 +15,10 @@ type CutCase struct {
 	Stream string
 	Level  int // -2: long stream family (DictCap 4096, 16 KiB caller buffer)
 	Cut    int
-	// Src: kind of source the reader is given. 0: *bytes.Reader; 1: *bufio.Reader with the smallest
-	// buffer (16 bytes); 2: *bufio.Reader with the default buffer (what gxz passes); 3: a plain
-	// io.Reader without any further method that hands out one byte per call
+	// Src: kind of source the reader is given (see sourceOf in envkinds.go)
 	Src int `json:",omitempty"`
-}
-
-// plainSource is an io.Reader and nothing else (no ReadByte, Peek, WriteTo, ...).
-type plainSource struct {
-	data []byte
-	step int
-}
-
-func (p *plainSource) Read(b []byte) (int, error) {
-	if len(p.data) == 0 {
-		return 0, io.EOF
-	}
-	n := p.step
-	if n > len(b) {
-		n = len(b)
-	}
-	if n > len(p.data) {
-		n = len(p.data)
-	}
-	copy(b, p.data[:n])
-	p.data = p.data[n:]
-	return n, nil
-}
-
-func c05Source(kind int, data []byte) io.Reader {
-	switch kind {
-	case 1:
-		return bufio.NewReaderSize(bytes.NewReader(data), 16)
-	case 2:
-		return bufio.NewReader(bytes.NewReader(data))
-	case 3:
-		return &plainSource{data: data, step: 1}
-	}
-	return bytes.NewReader(data)
+	// Drain: how the caller takes the data out (see drainOf): 0 Read loop, 1 / 2 io.Copy
+	Drain int `json:",omitempty"`
 }
 
 func init() {
@@ -77,7 +41,7 @@ func init() {
 		}
 		for _, s := range ss {
 			if s.Name == p.Stream {
-				c05Cut(r, s, p.Level, p.Cut, newSiteMap(s), p.Src)
+				c05Cut(r, s, p.Level, p.Cut, newSiteMap(s), p.Src, p.Drain)
 			}
 		}
 	})
@@ -140,24 +104,27 @@ func newSiteMap(s Stream) *siteMap {
 func (m *siteMap) at(k int) string { return m.names[k] }
 
 func c05Cut(r *core.Run, s Stream, level, cut int, sm *siteMap, srcKind ...int) {
-	src := 0
+	src, drain := 0, 0
 	if len(srcKind) > 0 {
 		src = srcKind[0]
 	}
-	cs := core.MkCase("C05", "cut", CutCase{Stream: s.Name, Level: level, Cut: cut, Src: src})
+	if len(srcKind) > 1 {
+		drain = srcKind[1]
+	}
+	cs := core.MkCase("C05", "cut", CutCase{Stream: s.Name, Level: level, Cut: cut, Src: src, Drain: drain})
 	var out []byte
 	var err error
 	var proto string
 	var pan *core.PanicInfo
 	switch {
-	case src != 0:
+	case src != 0 || drain != 0:
 		pan = core.Guard(func() {
-			rd, e := openReaderDict(s.Fmt, c05Source(src, s.Data[:cut]), 0)
+			rd, e := openReaderDict(s.Fmt, sourceOf(src, s.Data[:cut]), 0)
 			if e != nil {
 				err = e
 				return
 			}
-			out, err, proto = readAll(rd, 4096, 256<<20)
+			out, err, proto = drainOf(rd, drain, 4096, 256<<20)
 		})
 	case level == -2:
 		out, err, proto, pan = libDecodeBuf(s.Fmt, s.Data[:cut], 4096, 16384)
@@ -168,7 +135,11 @@ func c05Cut(r *core.Run, s Stream, level, cut int, sm *siteMap, srcKind ...int) 
 	desc := fmt.Sprintf("stream %s (%d bytes, written by %s) cut to %d bytes", s.Name, len(s.Data), s.Writer, cut)
 	if src != 0 {
 		site += fmt.Sprintf(" (source kind %d)", src)
-		desc += fmt.Sprintf(", source kind %d (1: bufio 16 bytes, 2: bufio default, 3: bare io.Reader byte by byte)", src)
+		desc += fmt.Sprintf(", source: %s", sourceKindNames[src])
+	}
+	if drain != 0 {
+		site += fmt.Sprintf(" (drain mode %d)", drain)
+		desc += fmt.Sprintf(", drained by %s", drainModeNames[drain])
 	}
 	cls := errClass(err)
 	switch {
@@ -185,7 +156,7 @@ func c05Cut(r *core.Run, s Stream, level, cut int, sm *siteMap, srcKind ...int) 
 	if !bytes.HasPrefix(s.Plain, out) {
 		r.Violate(cs, site+" → non-prefix-output", desc, fmt.Sprintf("%d bytes, first difference at %d", len(out), firstDiff(out, s.Plain)), "a prefix of the original content")
 	}
-	h := core.Hash(s.Name, cls, len(out), src)
+	h := core.Hash(s.Name, cls, len(out), src, drain)
 	r.Eval(h)
 	// non-trivial: the outcome class differs from the previous offset's (counted via distinct (stream, class, delivered) triples)
 	r.Nontrivial(h)
@@ -194,7 +165,7 @@ func c05Cut(r *core.Run, s Stream, level, cut int, sm *siteMap, srcKind ...int) 
 func runC05(r *core.Run) {
 	bindRef(r)
 	level := 1 // both tiers: the full base menu
-	r.Rule = "for each base stream (.xz 1-3 blocks all checks, multi-chunk, size fields; raw LZMA2 with flushes/raw chunks/all chunk kinds; .lzma in three termination modes; library-, reference- and liblzma-written; 300 small reference-written streams ending in each kind of LZMA operation; 378 library-written .lzma streams for every prefix of a text in the three termination modes) EVERY proper prefix is decoded with the library reader (the base menu through four kinds of source: bytes.Reader, bufio.Reader with 16-byte and default buffer, bare io.Reader handing out single bytes); multi-stream: every cut except stream/4-byte padding boundaries. non-trivial = distinct (stream, outcome class, bytes delivered) triples"
+	r.Rule = "for each base stream (.xz 1-3 blocks all checks, multi-chunk, size fields; raw LZMA2 with flushes/raw chunks/all chunk kinds; .lzma in three termination modes; library-, reference- and liblzma-written; 300 small reference-written streams ending in each kind of LZMA operation; 378 library-written .lzma streams for every prefix of a text in the three termination modes) EVERY proper prefix is decoded with the library reader (the base menu through nine kinds of source - bytes.Reader, bufio.Reader with 16-byte and default buffer, bare readers with 1-byte / half / full reads and with the last bytes delivered together with io.EOF, bytes.Buffer, a Read+ReadByte-only source - and drained by Read calls as well as by io.Copy); multi-stream: every cut except stream/4-byte padding boundaries. non-trivial = distinct (stream, outcome class, bytes delivered) triples"
 	streams := readerStreams(level)
 	{
 		lim := 1500 // quick: the small liblzma-written files of the frozen corpus; thorough: up to 20 KB
@@ -226,26 +197,27 @@ func runC05(r *core.Run) {
 		sm  *siteMap
 		lvl int
 		src int
+		drn int
 	}
 	var jobs []job
 	for _, s := range longStreams() {
 		sm := newSiteMap(s)
 		for k := 0; k < len(s.Data); k++ {
-			jobs = append(jobs, job{s, k, sm, -2, 0})
+			jobs = append(jobs, job{s, k, sm, -2, 0, 0})
 		}
 		r.Trace(1)
 	}
 	for _, s := range finalOpStreams() {
 		sm := newSiteMap(s)
 		for k := 0; k < len(s.Data); k++ {
-			jobs = append(jobs, job{s, k, sm, -3, 0})
+			jobs = append(jobs, job{s, k, sm, -3, 0, 0})
 		}
 		r.Trace(1)
 	}
 	for _, s := range walkStreams() {
 		sm := newSiteMap(s)
 		for k := 0; k < len(s.Data); k++ {
-			jobs = append(jobs, job{s, k, sm, -5, 0})
+			jobs = append(jobs, job{s, k, sm, -5, 0, 0})
 		}
 		r.Trace(1)
 	}
@@ -253,7 +225,7 @@ func runC05(r *core.Run) {
 		sm := newSiteMap(s)
 		// the header and the first bytes are covered by the other families: cuts in the second half
 		for k := len(s.Data) / 2; k < len(s.Data); k++ {
-			jobs = append(jobs, job{s, k, sm, -4, 0})
+			jobs = append(jobs, job{s, k, sm, -4, 0, 0})
 		}
 		r.Trace(1)
 	}
@@ -263,12 +235,13 @@ func runC05(r *core.Run) {
 			if s.ValidCuts[k] {
 				continue
 			}
-			jobs = append(jobs, job{s, k, sm, level, 0})
+			jobs = append(jobs, job{s, k, sm, level, 0, 0})
 			if len(s.Name) < 7 || s.Name[:7] != "corpus:" {
-				// the base menu also through buffered and bare sources
-				for src := 1; src <= 3; src++ {
-					jobs = append(jobs, job{s, k, sm, level, src})
+				// the base menu also through every other kind of source, and drained with io.Copy
+				for src := 1; src < nSourceKinds; src++ {
+					jobs = append(jobs, job{s, k, sm, level, src, 0})
 				}
+				jobs = append(jobs, job{s, k, sm, level, 0, 1}, job{s, k, sm, level, 5, 2})
 			}
 		}
 		r.Trace(1)
@@ -283,7 +256,7 @@ func runC05(r *core.Run) {
 		if len(j.s.Name) > 7 && j.s.Name[:7] == "corpus:" {
 			lvl = -1
 		}
-		c05Cut(r, j.s, lvl, j.cut, j.sm, j.src)
+		c05Cut(r, j.s, lvl, j.cut, j.sm, j.src, j.drn)
 	})
 	r.Assume("corpus-stream cases are replayable only by name from the frozen corpus (scenario 'cut' resolves base streams; corpus cuts are reported with file name and offset)")
 }
